@@ -334,7 +334,7 @@ def helper(ctx, indent_fn):
     if i_s is None or i_l is None:
         ctx.bad("C15.6", "indent-unit", fn["sp"], "add_indentation no longer takes (&mut String, <integer level>): %s" % fn.get("inputs"))
         return
-    exp = "for(ops::Range{end:P%d,start:'0'}){{String::push_str(P%d,'    ')}}" % (i_l, i_s)
+    exp = "for(ops::Range{end:P%d,start:'0'}){String::push_str(P%d,'    ')}" % (i_l, i_s)
     expect_term(ctx, "C15.6", "indent-unit", fn["sp"], t, [exp, "{" + exp + "}"], "four spaces per level: `for _ in 0..level { output.push_str(\"    \") }` (empty for level <= 0)")
 
 
